@@ -17,6 +17,9 @@
        COV = ((gid idx runlen) ...)
      gdef-enc GC MAC MGS          -> (ok xBYTES) | panic     GC, MAC = nil | ((gid class len) ...)
      gdef-read xBYTES             -> (ok GC MAC MGS) | err   MGS = nil | (((gid len) ...) ...)
+     sl-enc ((xSCRIPT DEF ((xLANG LS) ...)) ...) -> (ok xBYTES) | panic    DEF = nil | LS, LS = (required (optional ...))
+     sl-read xBYTES pos ((xSCRIPT xLANG) ...) -> (ok ((xSCRIPT xLANG LS) ...)) | err   (the final map, sorted; xLANG = x for the
+                                     default; 3rd argument: the pairs the tag conversion accepts)
      fl-enc ((xTAG (lookup ...)) ...) -> (ok xBYTES) | panic
      fl-read xBYTES pos           -> (ok ((xTAG (lookup ...)) ...)) | err *)
 
@@ -160,6 +163,21 @@ let sx_of_set (s : n list) : sx =
 let opt_sets_of_sx x = match x with A "nil" -> None | _ -> Some (List.map set_of_sx (lst x))
 let sx_of_opt_sets o = match o with None -> A "nil" | Some ss -> L (List.map sx_of_set ss)
 
+(* script list: ((xSCRIPT DEF ((xLANG LS) ...)) ...), DEF = nil | LS, LS = (required (optional ...)) *)
+let ls_of_sx x = match x with L [r; o] -> (sx_n r, ns_of_sx o) | _ -> failwith "bad langsys"
+let sx_of_ls (r, o) = L [an r; sx_of_ns o]
+let entries_of_sx x = List.map (fun e -> match e with
+  | L [t; d; ls] ->
+    ((sx_bytes t, (match d with A "nil" -> None | _ -> Some (ls_of_sx d))),
+     List.map (fun l -> match l with L [lt; f] -> (sx_bytes lt, ls_of_sx f) | _ -> failwith "bad lang") (lst ls))
+  | _ -> failwith "bad script entry") (lst x)
+(* the assignments as a map: last wins, sorted by (script, lang) *)
+let sx_of_assignments l =
+  let tbl = Hashtbl.create 16 in
+  List.iter (fun ((s, lg), f) -> Hashtbl.replace tbl (hex_of_bytes s, hex_of_bytes lg) f) l;
+  let keys = List.sort compare (Hashtbl.fold (fun k _ acc -> k :: acc) tbl []) in
+  L (List.map (fun (s, lg) -> L [A s; A lg; sx_of_ls (Hashtbl.find tbl (s, lg))]) keys)
+
 let enc_obs (b : n list outcome) (n : n outcome) : sx =
   match b, n with
   | Ok b, Ok n -> L [A "ok"; A (hex_of_bytes b); an n]
@@ -242,4 +260,11 @@ let () = main_loop (fun c ->
   | [A "gdef-read"; data] ->
     outc (fun t -> L [A "ok"; sx_of_opt_cd t.g_gc; sx_of_opt_cd t.g_mac; sx_of_opt_sets t.g_sets])
       (m_gdef_read (sx_bytes data))
+  | [A "sl-enc"; es] ->
+    outc (fun b -> L [A "ok"; A (hex_of_bytes b)]) (m_sl_encode (entries_of_sx es))
+  | [A "sl-read"; data; pos; known] ->
+    (* known = ((xSCRIPT xLANG) ...): the pairs otfToBCP47 converts (abstracted tag conversion) *)
+    let known = List.map (fun p -> match p with L [A s; A l] -> (s, l) | _ -> failwith "bad pair") (lst known) in
+    let conv_ok s l = List.mem (hex_of_bytes s, hex_of_bytes l) known in
+    outc (fun l -> L [A "ok"; sx_of_assignments l]) (m_sl_read conv_ok (sx_bytes data) (sx_n pos))
   | _ -> failwith "bad case")
